@@ -136,3 +136,28 @@ reg('C05', module='c05', level='exploration',
                        'interp_compared': 500, 'contract_evals': 3000},
              'thorough': {'lemma_compared': 20000, 'exact_compared': 10000,
                           'interp_compared': 5000, 'contract_evals': 40000}})
+
+reg('C06', module='c06', level='exploration',
+    technique=('runtime monitoring: every derived constructor / infix form '
+               'is built over symbols and its reference-evaluator value is '
+               'compared with a direct Python definition on all argument '
+               'values (Bool, BV widths 1-4/5) or a grid (Int/Real)'),
+    rule=('table of ~1500 (constructor or infix form, arity, width, literal) '
+          'cases; each is evaluated on every Boolean / bit-vector operand '
+          'tuple and on a 15-17 point Int/Real grid; distinct = case name; '
+          'exhaustive over the Boolean and bit-vector operand values of the '
+          'listed widths'),
+    level_text=('the formula actually built is evaluated by the independent '
+                'evaluator for every operand tuple and compared with the '
+                'mathematical function named by the constructor. Exhaustive '
+                'for Bool and BV widths <= 4 (5 in thorough), sampled grid '
+                'for Int/Real.'),
+    level_note=('trusts vf/refeval.py and the Python definitions in vf/c06.py '
+                '(written from the docstrings and SMT-LIB definitions)'),
+    assumptions=['shifts by a Python integer k are checked for k < 2**width '
+                 '(larger k cannot be written as a constant of that width)'],
+    exhaustive={'quick': False, 'thorough': False},
+    require={'quick': {'argument_tuples_evaluated': 50000,
+                       'sbv_checked': 100, 'misc_checked': 4},
+             'thorough': {'argument_tuples_evaluated': 100000,
+                          'sbv_checked': 100, 'misc_checked': 4}})
